@@ -161,7 +161,725 @@ Section Generic.
 End Generic.
 
 Lemma byte_eqb_spec : forall a b, byte_eqb a b = true <-> a = b.
-Proof. intros. unfold byte_eqb. apply Byte.eqb_eq. Qed.
+Proof. intros. unfold byte_eqb. split; [apply Byte.byte_dec_bl|apply Byte.byte_dec_lb]. Qed.
 
 Lemma beq_spec : forall a b, beq a b = true <-> a = b.
 Proof. apply list_eqb_spec. exact byte_eqb_spec. Qed.
+
+(* ================================================================================================ *)
+(** * SPEC — written from the property text (C11) and docs/spec/section-format.rst *)
+
+(* the character classes, as literal alphabets *)
+Definition alpha_alphabet : bytes := B "ABCDEFGHIJKLMNOPQRSTUVWXYZabcdefghijklmnopqrstuvwxyz".
+Definition digit_alphabet : bytes := B "0123456789".
+(* [A-Za-z] *)
+Definition spec_alpha (b : byte) : Prop := In b alpha_alphabet.
+(* [A-Za-z0-9_-] *)
+Definition spec_key_char (b : byte) : Prop := In b (alpha_alphabet ++ digit_alphabet ++ B "_-").
+(* [A-Za-z0-9/._-] *)
+Definition spec_val_char (b : byte) : Prop := In b (alpha_alphabet ++ digit_alphabet ++ B "/._-").
+(* [0-9] *)
+Definition spec_digit (b : byte) : Prop := In b digit_alphabet.
+
+(* key: [A-Za-z][A-Za-z0-9_-]*, value: [A-Za-z0-9/._-]+, both in their entirety *)
+Definition spec_key (k : bytes) : Prop :=
+  exists c t, k = c :: t /\ spec_alpha c /\ Forall spec_key_char t.
+Definition spec_val (v : bytes) : Prop := v <> [] /\ Forall spec_val_char v.
+Definition spec_pair (p : bytes * bytes) : Prop := spec_key (fst p) /\ spec_val (snd p).
+
+(* the six section names *)
+Definition spec_names : list bytes :=
+  [B "diffx"; B "preamble"; B "meta"; B "change"; B "file"; B "diff"].
+
+(* key=value *)
+Definition render_pair (p : bytes * bytes) : bytes := fst p ++ B "=" ++ snd p.
+
+(* "#", dots, name, ":", and optionally one space followed by the pairs separated by ", " *)
+Definition render_header (dots : nat) (name : bytes) (ps : list (bytes * bytes)) : bytes :=
+  B "#" ++ repeat_b "."%byte dots ++ name ++ B ":" ++
+  match ps with
+  | [] => []
+  | _ :: _ => B " " ++ join (B ", ") (map render_pair ps)
+  end.
+
+Definition spec_header (line : bytes) (dots : nat) (name : bytes) (ps : list (bytes * bytes)) : Prop :=
+  dots <= 3 /\ In name spec_names /\ Forall spec_pair ps /\ line = render_header dots name ps.
+
+(* "integer-valued" = -?[0-9]+ ; its value is the usual positional one *)
+Definition spec_digit_val (b : byte) : N :=
+  match b with
+  | "0"%byte => 0 | "1"%byte => 1 | "2"%byte => 2 | "3"%byte => 3 | "4"%byte => 4
+  | "5"%byte => 5 | "6"%byte => 6 | "7"%byte => 7 | "8"%byte => 8 | "9"%byte => 9
+  | _ => 0
+  end%N.
+Fixpoint spec_dec (ds : bytes) : N :=
+  match ds with
+  | [] => 0
+  | d :: t => spec_digit_val d * 10 ^ N.of_nat (length t) + spec_dec t
+  end%N.
+Definition spec_digits (ds : bytes) : Prop := ds <> [] /\ Forall spec_digit ds.
+
+(* The reported value of an option.  Caveat (documented): like CPython's int(), the library leaves digit
+   strings longer than sys.get_int_max_str_digits() = 4300 as strings; this side condition is explicit. *)
+Definition max_digits : nat := 4300.
+Inductive spec_convert : bytes -> pv -> Prop :=
+| SC_pos ds : spec_digits ds -> length ds <= max_digits ->
+    spec_convert ds (VInt (Z.of_N (spec_dec ds)))
+| SC_neg ds : spec_digits ds -> length ds <= max_digits ->
+    spec_convert ("-"%byte :: ds) (VInt (- Z.of_N (spec_dec ds)))
+| SC_long_pos ds : spec_digits ds -> max_digits < length ds -> spec_convert ds (VStr ds)
+| SC_long_neg ds : spec_digits ds -> max_digits < length ds ->
+    spec_convert ("-"%byte :: ds) (VStr ("-"%byte :: ds))
+| SC_str v : ~ spec_digits v -> (forall ds, v = "-"%byte :: ds -> ~ spec_digits ds) ->
+    spec_convert v (VStr v).
+
+(* the options dict: pairs processed left to right, a later duplicate key overrides (Python dict) *)
+Definition opts_step (conv : bytes -> pv) (acc : options) (p : bytes * bytes) : options :=
+  assoc_set beq (fst p) (conv (snd p)) acc.
+Definition opts_of (conv : bytes -> pv) (ps : list (bytes * bytes)) : options :=
+  fold_left (opts_step conv) ps [].
+
+(* ps' is ps with the elements of extra inserted at arbitrary positions (C12) *)
+Inductive interleave {A : Type} : list A -> list A -> list A -> Prop :=
+| il_nil : interleave [] [] []
+| il_l x a b c : interleave a b c -> interleave (x :: a) b (x :: c)
+| il_r x a b c : interleave a b c -> interleave a (x :: b) (x :: c).
+
+(* ================================================================================================ *)
+(** * Character classes: model = spec (256-case computations) *)
+
+Lemma In_mem_byte : forall (b : byte) l, In b l <-> mem byte_eqb b l = true.
+Proof.
+  intros b l. induction l as [|y t IH]; cbn [mem In].
+  - split; [tauto|discriminate].
+  - rewrite orb_true_iff, byte_eqb_spec, <- IH. split; intros [H|H]; auto.
+Qed.
+
+Lemma spec_alpha_iff : forall b, spec_alpha b <-> is_alpha b = true.
+Proof.
+  intros b. unfold spec_alpha. rewrite In_mem_byte.
+  assert (H : mem byte_eqb b alpha_alphabet = is_alpha b) by (destruct b; vm_compute; reflexivity).
+  rewrite H. tauto.
+Qed.
+Lemma spec_key_char_iff : forall b, spec_key_char b <-> key_tail_char b = true.
+Proof.
+  intros b. unfold spec_key_char. rewrite In_mem_byte.
+  assert (H : mem byte_eqb b (alpha_alphabet ++ digit_alphabet ++ B "_-") = key_tail_char b)
+    by (destruct b; vm_compute; reflexivity).
+  rewrite H. tauto.
+Qed.
+Lemma spec_val_char_iff : forall b, spec_val_char b <-> val_char b = true.
+Proof.
+  intros b. unfold spec_val_char. rewrite In_mem_byte.
+  assert (H : mem byte_eqb b (alpha_alphabet ++ digit_alphabet ++ B "/._-") = val_char b)
+    by (destruct b; vm_compute; reflexivity).
+  rewrite H. tauto.
+Qed.
+Lemma spec_digit_iff : forall b, spec_digit b <-> is_digit b = true.
+Proof.
+  intros b. unfold spec_digit. rewrite In_mem_byte.
+  assert (H : mem byte_eqb b digit_alphabet = is_digit b) by (destruct b; vm_compute; reflexivity).
+  rewrite H. tauto.
+Qed.
+
+Lemma Forall_iff {A} (P Q : A -> Prop) l : (forall x, P x <-> Q x) -> (Forall P l <-> Forall Q l).
+Proof. intros H. split; apply Forall_impl; intros; apply H; assumption. Qed.
+
+Lemma spec_key_iff : forall k, spec_key k <-> key_ok k = true.
+Proof.
+  intros k. unfold spec_key, key_ok. split.
+  - intros (c & t & -> & Hc & Ht). apply andb_true_iff. split.
+    + apply spec_alpha_iff. assumption.
+    + apply all_b_Forall. revert Ht. apply Forall_impl. intros. apply spec_key_char_iff. assumption.
+  - destruct k as [|c t]; [discriminate|]. intros H. apply andb_true_iff in H. destruct H as [Hc Ht].
+    exists c, t. split; [reflexivity|]. split; [apply spec_alpha_iff; assumption|].
+    apply all_b_Forall in Ht. revert Ht. apply Forall_impl. intros. apply spec_key_char_iff. assumption.
+Qed.
+
+Lemma spec_val_iff : forall v, spec_val v <-> val_ok v = true.
+Proof.
+  intros v. unfold spec_val, val_ok. rewrite andb_true_iff, nonempty_true, all_b_Forall.
+  rewrite (Forall_iff spec_val_char (fun x => val_char x = true)) by apply spec_val_char_iff. tauto.
+Qed.
+
+Lemma spec_digits_iff : forall ds, spec_digits ds <-> nonempty ds && all_b is_digit ds = true.
+Proof.
+  intros v. unfold spec_digits. rewrite andb_true_iff, nonempty_true, all_b_Forall.
+  rewrite (Forall_iff spec_digit (fun x => is_digit x = true)) by apply spec_digit_iff. tauto.
+Qed.
+
+(* what the model's regex classes need of the spec's classes *)
+Lemma key_char_facts : forall b, key_tail_char b = true ->
+  pair_key_char b = true /\ is_eq b = false /\ b <> ","%byte.
+Proof. intros b. destruct b; vm_compute; intros H; try discriminate H; repeat split; discriminate. Qed.
+Lemma alpha_key_char : forall b, is_alpha b = true -> key_tail_char b = true.
+Proof. intros b. destruct b; vm_compute; intros H; try discriminate H; reflexivity. Qed.
+Lemma val_char_facts : forall b, val_char b = true -> pair_val_char b = true /\ b <> ","%byte.
+Proof. intros b. destruct b; vm_compute; intros H; try discriminate H; repeat split; discriminate. Qed.
+Lemma eq_not_comma : "="%byte <> ","%byte.
+Proof. discriminate. Qed.
+Lemma digit_not_minus : forall b, is_digit b = true -> byte_eqb b "-"%byte = false.
+Proof. intros b. destruct b; vm_compute; intros H; try discriminate H; reflexivity. Qed.
+Lemma digit_val_model : forall b, is_digit b = true -> (byte_n b - 48)%N = spec_digit_val b.
+Proof. intros b. destruct b; vm_compute; intros H; try discriminate H; reflexivity. Qed.
+
+Lemma spec_names_model : spec_names = header_names.
+Proof. reflexivity. Qed.
+
+(* ================================================================================================ *)
+(** * Integer conversion *)
+
+Lemma dec_fold_spec : forall l acc, Forall (fun b => is_digit b = true) l ->
+  fold_left (fun a b => (a * 10 + (byte_n b - 48))%N) l acc
+  = (acc * 10 ^ N.of_nat (length l) + spec_dec l)%N.
+Proof.
+  induction l as [|d t IH]; intros acc HF.
+  - cbn [fold_left length spec_dec]. change (N.of_nat 0) with 0%N. rewrite N.pow_0_r. lia.
+  - inversion HF as [|? ? Hd Ht]; subst. cbn [fold_left]. rewrite IH by assumption.
+    rewrite digit_val_model by assumption. cbn [spec_dec length].
+    rewrite Nat2N.inj_succ, N.pow_succ_r'. set (P := (10 ^ N.of_nat (length t))%N). lia.
+Qed.
+
+Lemma dec_to_N_spec : forall l, Forall (fun b => is_digit b = true) l -> dec_to_N l = spec_dec l.
+Proof. intros l H. unfold dec_to_N. rewrite dec_fold_spec by assumption. lia. Qed.
+
+Lemma digits_no_minus : forall ds, spec_digits ds -> forall t, ds <> "-"%byte :: t.
+Proof.
+  intros ds [_ HF] t ->. inversion HF as [|? ? Hd _]; subst.
+  apply spec_digit_iff, digit_not_minus in Hd. vm_compute in Hd. discriminate.
+Qed.
+
+(* the model's conversion satisfies the spec *)
+Lemma convert_value_spec : forall v, spec_convert v (convert_value v).
+Proof.
+  intros v. unfold convert_value, int_ok, digits_of.
+  change int_max_str_digits with max_digits.
+  destruct v as [|c t].
+  - cbn. apply SC_str.
+    + intros [H _]. congruence.
+    + intros ds H. discriminate.
+  - destruct (byte_eqb c "-"%byte) eqn:Ec.
+    + apply byte_eqb_spec in Ec. subst c.
+      destruct (nonempty t && all_b is_digit t) eqn:Ed.
+      * apply spec_digits_iff in Ed.
+        destruct (Nat.leb (length t) max_digits) eqn:El; cbn [andb].
+        -- apply Nat.leb_le in El. rewrite dec_to_N_spec.
+           ++ apply SC_neg; assumption.
+           ++ destruct Ed as [_ Ed]. revert Ed. apply Forall_impl. intros. apply spec_digit_iff. assumption.
+        -- apply Nat.leb_gt in El. apply SC_long_neg; assumption.
+      * cbn [andb]. apply SC_str.
+        -- intros Hd. exact (digits_no_minus _ Hd t eq_refl).
+        -- intros ds Heq Hd. inversion Heq; subst ds. apply spec_digits_iff in Hd. congruence.
+    + destruct (all_b is_digit (c :: t)) eqn:Ed.
+      * assert (Hd : spec_digits (c :: t)).
+        { apply spec_digits_iff. rewrite Ed. reflexivity. }
+        destruct (Nat.leb (length (c :: t)) max_digits) eqn:El; cbn [andb].
+        -- apply Nat.leb_le in El. rewrite dec_to_N_spec.
+           ++ apply SC_pos; assumption.
+           ++ apply all_b_Forall. assumption.
+        -- apply Nat.leb_gt in El. apply SC_long_pos; assumption.
+      * cbn [andb]. apply SC_str.
+        -- intros Hd. apply spec_digits_iff in Hd. cbn [nonempty andb] in Hd. congruence.
+        -- intros ds Heq. inversion Heq; subst. rewrite (proj2 (byte_eqb_spec _ _) eq_refl) in Ec. discriminate.
+Qed.
+
+(* the spec determines the reported value *)
+Lemma spec_convert_fun : forall v a b, spec_convert v a -> spec_convert v b -> a = b.
+Proof.
+  intros v a b Ha Hb.
+  destruct Ha as [ds Hd Hl|ds Hd Hl|ds Hd Hl|ds Hd Hl|v Hn1 Hn2];
+    inversion Hb as [ds' Hd' Hl' E|ds' Hd' Hl' E|ds' Hd' Hl' E|ds' Hd' Hl' E|v' Hn1' Hn2' E]; subst;
+    try reflexivity;
+    try (exfalso; lia);
+    try (exfalso; eapply digits_no_minus; [|reflexivity]; eassumption);
+    try (exfalso; apply Hn1'; assumption);
+    try (exfalso; apply Hn1; assumption);
+    try (exfalso; eapply Hn2'; [reflexivity|eassumption]);
+    try (exfalso; eapply Hn2; [reflexivity|eassumption]).
+Qed.
+
+Lemma convert_value_unique : forall v a, spec_convert v a -> a = convert_value v.
+Proof. intros v a H. eapply spec_convert_fun; [eassumption|apply convert_value_spec]. Qed.
+
+(* ================================================================================================ *)
+(** * The pieces of [match_header_re] / [parse_pairs] *)
+
+Lemma take_dots_sound : forall l n rest, take_dots l = (n, rest) -> l = repeat_b "."%byte n ++ rest.
+Proof.
+  induction l as [|c t IH]; intros n rest H; cbn [take_dots] in H.
+  - inversion H; subst. reflexivity.
+  - destruct (byte_eqb c "."%byte) eqn:Ec.
+    + destruct (take_dots t) as [m r] eqn:Et. inversion H; subst.
+      apply byte_eqb_spec in Ec. subst c. cbn [repeat_b app]. f_equal. apply IH. reflexivity.
+    + inversion H; subst. reflexivity.
+Qed.
+
+Lemma take_dots_complete : forall n rest,
+  match rest with c :: _ => byte_eqb c "."%byte = false | [] => True end ->
+  take_dots (repeat_b "."%byte n ++ rest) = (n, rest).
+Proof.
+  induction n as [|n IH]; intros rest H.
+  - cbn [repeat_b app]. destruct rest as [|c t]; [reflexivity|]. cbn [take_dots]. rewrite H. reflexivity.
+  - cbn [repeat_b app take_dots]. rewrite (proj2 (byte_eqb_spec _ _) eq_refl). rewrite IH by assumption. reflexivity.
+Qed.
+
+Lemma match_name_sound : forall names l name tail,
+  match_name names l = Some (name, tail) -> In name names /\ l = name ++ B ":" ++ tail.
+Proof.
+  induction names as [|n r IH]; intros l name tail H; cbn [match_name] in H; [discriminate|].
+  destruct (bstarts (n ++ B ":") l) eqn:Es.
+  - inversion H; subst. split; [left; reflexivity|].
+    apply (prefixb_true byte_eqb byte_eqb_spec) in Es.
+    rewrite app_length in Es. cbn [B String.list_byte_of_string length] in Es.
+    rewrite <- app_assoc in Es. exact Es.
+  - destruct (IH _ _ _ H). split; [right; assumption|assumption].
+Qed.
+
+Lemma match_name_complete : forall name tail, In name spec_names ->
+  match_name header_names (name ++ B ":" ++ tail) = Some (name, tail).
+Proof.
+  intros name tail H. unfold spec_names in H. cbn [In] in H.
+  destruct H as [<-|[<-|[<-|[<-|[<-|[<-|[]]]]]]]; reflexivity.
+Qed.
+
+Lemma name_no_dot : forall name tail, In name spec_names ->
+  match name ++ B ":" ++ tail with c :: _ => byte_eqb c "."%byte = false | [] => True end.
+Proof.
+  intros name tail H. unfold spec_names in H. cbn [In] in H.
+  destruct H as [<-|[<-|[<-|[<-|[<-|[<-|[]]]]]]]; reflexivity.
+Qed.
+
+Lemma split_eq_sound : forall p k v, split_eq p = Some (k, v) -> p = k ++ B "=" ++ v.
+Proof.
+  induction p as [|c t IH]; intros k v H; cbn [split_eq] in H; [discriminate|].
+  destruct (is_eq c) eqn:Ec.
+  - inversion H; subst. apply byte_eqb_spec in Ec. subst c. reflexivity.
+  - destruct (split_eq t) as [[k' v']|] eqn:Et; [|discriminate]. inversion H; subst.
+    cbn [app]. f_equal. apply IH. reflexivity.
+Qed.
+
+Lemma split_eq_complete : forall k v, Forall (fun b => is_eq b = false) k ->
+  split_eq (k ++ B "=" ++ v) = Some (k, v).
+Proof.
+  induction k as [|c t IH]; intros v H.
+  - reflexivity.
+  - inversion H; subst. cbn [app split_eq]. rewrite H2. rewrite IH by assumption. reflexivity.
+Qed.
+
+(* facts about a valid key / value that the model's regex needs *)
+Lemma spec_key_model : forall k, spec_key k ->
+  Forall (fun b => key_tail_char b = true) k /\ k <> [].
+Proof.
+  intros k (c & t & -> & Hc & Ht). split; [|discriminate]. constructor.
+  - apply alpha_key_char, spec_alpha_iff. assumption.
+  - revert Ht. apply Forall_impl. intros. apply spec_key_char_iff. assumption.
+Qed.
+
+Lemma spec_pair_split : forall p, spec_pair p -> split_eq (render_pair p) = Some (fst p, snd p).
+Proof.
+  intros [k v] [Hk _]. unfold render_pair. cbn [fst snd] in *. apply split_eq_complete.
+  apply spec_key_model in Hk. destruct Hk as [Hk _]. revert Hk. apply Forall_impl.
+  intros b Hb. apply key_char_facts in Hb. tauto.
+Qed.
+
+Lemma spec_pair_shape : forall p, spec_pair p -> pair_shape_ok (render_pair p) = true.
+Proof.
+  intros p Hp. unfold pair_shape_ok. rewrite (spec_pair_split p Hp).
+  destruct p as [k v]. destruct Hp as [Hk Hv]. cbn [fst snd] in *.
+  apply spec_key_model in Hk. destruct Hk as [Hk Hkn]. destruct Hv as [Hvn Hv].
+  repeat (apply andb_true_iff; split).
+  - apply nonempty_true. assumption.
+  - apply all_b_Forall. revert Hk. apply Forall_impl. intros b Hb. apply key_char_facts in Hb. tauto.
+  - apply nonempty_true. assumption.
+  - apply all_b_Forall. revert Hv. apply Forall_impl. intros b Hb.
+    apply spec_val_char_iff, val_char_facts in Hb. tauto.
+Qed.
+
+Lemma spec_pair_no_comma : forall p, spec_pair p -> ~ In ","%byte (render_pair p).
+Proof.
+  intros [k v] [Hk Hv] Hin. unfold render_pair in Hin. cbn [fst snd] in *.
+  apply spec_key_model in Hk. destruct Hk as [Hk _]. destruct Hv as [_ Hv].
+  apply in_app_or in Hin. destruct Hin as [Hin|Hin].
+  - rewrite Forall_forall in Hk. apply Hk, key_char_facts in Hin. tauto.
+  - cbn [B String.list_byte_of_string app In] in Hin. destruct Hin as [Hin|Hin].
+    + apply eq_not_comma. assumption.
+    + rewrite Forall_forall in Hv. apply Hv, spec_val_char_iff, val_char_facts in Hin. tauto.
+Qed.
+
+Lemma parse_pairs_sound : forall h pieces acc o, parse_pairs h pieces acc = inl o ->
+  exists ps, pieces = map render_pair ps /\ Forall spec_pair ps /\
+             o = fold_left (opts_step convert_value) ps acc.
+Proof.
+  intros h. induction pieces as [|p rest IH]; intros acc o H; cbn [parse_pairs] in H.
+  - inversion H; subst. exists []. repeat split. constructor.
+  - destruct (split_eq p) as [[k v]|] eqn:Es; [|discriminate].
+    destruct (key_ok k) eqn:Ek; cbn [negb] in H; [|discriminate].
+    destruct (val_ok v) eqn:Ev; cbn [negb] in H; [|discriminate].
+    apply IH in H. destruct H as (ps & -> & HF & ->).
+    exists ((k, v) :: ps). split; [|split].
+    + cbn [map]. f_equal. apply split_eq_sound. assumption.
+    + constructor; [|assumption]. split; cbn [fst snd]; [apply spec_key_iff|apply spec_val_iff]; assumption.
+    + reflexivity.
+Qed.
+
+Lemma parse_pairs_complete : forall h ps acc, Forall spec_pair ps ->
+  parse_pairs h (map render_pair ps) acc = inl (fold_left (opts_step convert_value) ps acc).
+Proof.
+  intros h. induction ps as [|p ps IH]; intros acc HF; [reflexivity|].
+  inversion HF as [|? ? Hp HF']; subst. cbn [map parse_pairs].
+  rewrite (spec_pair_split p Hp). destruct Hp as [Hk Hv].
+  apply spec_key_iff in Hk. apply spec_val_iff in Hv. rewrite Hk, Hv. cbn [negb].
+  rewrite IH by assumption. reflexivity.
+Qed.
+
+Lemma comma_space_cons : comma_space = ","%byte :: [" "%byte].
+Proof. reflexivity. Qed.
+
+Lemma bsplit_join_pairs : forall ps, ps <> [] -> Forall spec_pair ps ->
+  bsplit comma_space (join comma_space (map render_pair ps)) = map render_pair ps.
+Proof.
+  intros ps Hne HF. unfold bsplit. rewrite comma_space_cons.
+  apply (split_join byte_eqb byte_eqb_spec).
+  - destruct ps; [congruence|discriminate].
+  - apply Forall_forall. intros q Hq. apply in_map_iff in Hq. destruct Hq as (p & <- & Hp).
+    apply spec_pair_no_comma. rewrite Forall_forall in HF. apply HF. assumption.
+Qed.
+
+(* the regex on a line of the spec's form *)
+Lemma match_header_re_complete : forall dots name ps, dots <= 3 -> In name spec_names ->
+  Forall spec_pair ps ->
+  match_header_re (render_header dots name ps) =
+    Some (dots, name, match ps with [] => None | _ => Some (join comma_space (map render_pair ps)) end).
+Proof.
+  intros dots name ps Hd Hn HF.
+  set (tl := match ps with [] => [] | _ :: _ => B " " ++ join comma_space (map render_pair ps) end).
+  assert (Hr : render_header dots name ps = "#"%byte :: (repeat_b "."%byte dots ++ (name ++ B ":" ++ tl)))
+    by reflexivity.
+  rewrite Hr. unfold match_header_re.
+  rewrite (proj2 (byte_eqb_spec _ _) eq_refl).
+  rewrite take_dots_complete by (apply name_no_dot; assumption).
+  apply Nat.leb_le in Hd. rewrite Hd.
+  rewrite match_name_complete by assumption.
+  subst tl. destruct ps as [|p ps]; [reflexivity|].
+  change (B " " ++ join comma_space (map render_pair (p :: ps)))
+    with (" "%byte :: join comma_space (map render_pair (p :: ps))). cbv iota.
+  rewrite (proj2 (byte_eqb_spec _ _) eq_refl). cbn [andb].
+  rewrite bsplit_join_pairs by (discriminate || assumption).
+  assert (Hne : nonempty (join comma_space (map render_pair (p :: ps))) = true).
+  { apply nonempty_true. inversion HF as [|? ? Hp _]; subst.
+    destruct Hp as [Hk _]. destruct Hk as (c & t & Hk & _).
+    destruct p as [k v]. cbn [fst] in Hk. subst k.
+    cbn [map]. destruct (map render_pair ps); cbn; discriminate. }
+  rewrite Hne. cbn [andb].
+  assert (Hall : all_b pair_shape_ok (map render_pair (p :: ps)) = true).
+  { apply all_b_Forall. apply Forall_forall. intros q Hq. apply in_map_iff in Hq.
+    destruct Hq as (p0 & <- & Hp0). apply spec_pair_shape. rewrite Forall_forall in HF. apply HF. assumption. }
+  rewrite Hall. reflexivity.
+Qed.
+
+Lemma match_header_re_sound : forall line dots name ostr,
+  match_header_re line = Some (dots, name, ostr) ->
+  dots <= 3 /\ In name spec_names /\
+  line = B "#" ++ repeat_b "."%byte dots ++ name ++ B ":" ++
+         match ostr with None => [] | Some s => B " " ++ s end.
+Proof.
+  intros line dots name ostr H. unfold match_header_re in H.
+  destruct line as [|c r]; [discriminate|].
+  destruct (byte_eqb c "#"%byte) eqn:Ec; [|discriminate]. apply byte_eqb_spec in Ec. subst c.
+  destruct (take_dots r) as [n rest] eqn:Et. apply take_dots_sound in Et.
+  destruct (Nat.leb n 3) eqn:El; [|discriminate]. apply Nat.leb_le in El.
+  destruct (match_name header_names rest) as [[nm tail]|] eqn:Em; [|discriminate].
+  apply match_name_sound in Em. destruct Em as [Hin Hrest].
+  destruct tail as [|sp opts].
+  - inversion H; subst. repeat split; try assumption.
+  - destruct (byte_eqb sp " "%byte && nonempty opts && all_b pair_shape_ok (bsplit comma_space opts)) eqn:Eb;
+      [|discriminate].
+    inversion H; subst. apply andb_true_iff in Eb. destruct Eb as [Eb _].
+    apply andb_true_iff in Eb. destruct Eb as [Eb _]. apply byte_eqb_spec in Eb. subst sp.
+    repeat split; try assumption.
+Qed.
+
+(* ================================================================================================ *)
+(** * C11 *)
+
+Lemma in_ids_In : forall id valid, in_ids id valid = true <-> In id valid.
+Proof. intros. unfold in_ids, beq. apply mem_In. exact byte_eqb_spec. Qed.
+
+(* Accepted => the line has the documented form, and the options are reported verbatim
+   (integer-valued ones converted, see [convert_value_spec]); later duplicates override. *)
+Theorem C11_sound : forall valid line level name id opts,
+  parse_header valid line = HOk level name id opts ->
+  exists ps, spec_header line level name ps /\
+             id = repeat_b "."%byte level ++ name /\ In id valid /\
+             opts = opts_of convert_value ps.
+Proof.
+  intros valid line level name id opts H. unfold parse_header in H.
+  destruct (match_header_re line) as [[[d n] ostr]|] eqn:Em; [|discriminate].
+  apply match_header_re_sound in Em. destruct Em as (Hd & Hn & Hline).
+  destruct (in_ids (build_id d n) valid) eqn:Ei; cbn [negb] in H; [|discriminate].
+  apply in_ids_In in Ei.
+  destruct ostr as [s|].
+  - destruct (parse_pairs line (bsplit comma_space s) []) as [o|col] eqn:Ep; [|discriminate].
+    inversion H; subst level name id opts. clear H.
+    apply parse_pairs_sound in Ep. destruct Ep as (ps & Hsplit & HF & Ho).
+    exists ps. split; [|split; [reflexivity|split; [assumption|exact Ho]]].
+    split; [assumption|split; [assumption|split; [assumption|]]].
+    assert (Hs : s = join comma_space (map render_pair ps)).
+    { rewrite <- Hsplit. unfold bsplit. symmetry.
+      apply (join_split byte_eqb byte_eqb_spec). discriminate. }
+    assert (Hne : ps <> []).
+    { intros ->. cbn [map] in Hsplit. unfold bsplit, split in Hsplit.
+      exact (split_aux_ne byte_eqb _ _ _ _ Hsplit). }
+    rewrite Hline. unfold render_header. destruct ps as [|p ps]; [congruence|].
+    rewrite Hs. reflexivity.
+  - inversion H; subst level name id opts. clear H.
+    exists []. split; [|split; [reflexivity|split; [assumption|reflexivity]]].
+    split; [assumption|split; [assumption|split; [constructor|]]].
+    rewrite Hline. reflexivity.
+Qed.
+
+(* Every line of the documented form whose section ID is expected is accepted, with exactly those options. *)
+Theorem C11_complete : forall valid line dots name ps,
+  spec_header line dots name ps -> In (repeat_b "."%byte dots ++ name) valid ->
+  parse_header valid line =
+    HOk dots name (repeat_b "."%byte dots ++ name) (opts_of convert_value ps).
+Proof.
+  intros valid line dots name ps (Hd & Hn & HF & ->) Hin. unfold parse_header.
+  rewrite match_header_re_complete by assumption.
+  apply in_ids_In in Hin. unfold build_id. rewrite Hin. cbn [negb].
+  destruct ps as [|p ps]; [reflexivity|].
+  rewrite bsplit_join_pairs by (discriminate || assumption).
+  rewrite parse_pairs_complete by assumption. reflexivity.
+Qed.
+
+(* A line of the documented form whose section ID is not expected here is a parse error. *)
+Theorem C11_unexpected : forall valid line dots name ps,
+  spec_header line dots name ps -> ~ In (repeat_b "."%byte dots ++ name) valid ->
+  parse_header valid line = HErr None.
+Proof.
+  intros valid line dots name ps (Hd & Hn & HF & ->) Hin. unfold parse_header.
+  rewrite match_header_re_complete by assumption.
+  destruct (in_ids (build_id dots name) valid) eqn:Ei; [|reflexivity].
+  apply in_ids_In in Ei. contradiction.
+Qed.
+
+(* Every other line is rejected (the result type has only accept / parse error). *)
+Theorem C11_reject : forall valid line,
+  ~ (exists dots name ps, spec_header line dots name ps /\ In (repeat_b "."%byte dots ++ name) valid) ->
+  exists col, parse_header valid line = HErr col.
+Proof.
+  intros valid line Hno. destruct (parse_header valid line) as [level name id opts|col] eqn:E.
+  - exfalso. apply Hno. apply C11_sound in E. destruct E as (ps & Hs & -> & Hin & _).
+    exists level, name, ps. split; assumption.
+  - exists col. reflexivity.
+Qed.
+
+Theorem C11_exact : forall valid line,
+  (exists level name id opts, parse_header valid line = HOk level name id opts) <->
+  (exists dots name ps, spec_header line dots name ps /\ In (repeat_b "."%byte dots ++ name) valid).
+Proof.
+  intros valid line. split.
+  - intros (level & name & id & opts & E). apply C11_sound in E. destruct E as (ps & Hs & -> & Hin & _).
+    exists level, name, ps. split; assumption.
+  - intros (dots & name & ps & Hs & Hin). eexists _, _, _, _. apply C11_complete; eassumption.
+Qed.
+
+(* In the reader, a rejected header line is a parse error: the only other exception [read_header]
+   can produce comes from reading the stream, before the header is parsed. *)
+Lemma read_header_err_is_parse : forall chunk valid st e,
+  read_header chunk valid st = HdrExc e ->
+  next_nonblank (S (length (remaining (st_stream st)))) chunk (st_stream st) = Err e.
+Proof.
+  intros chunk valid st e H. unfold read_header in H.
+  destruct (next_nonblank _ chunk (st_stream st)) as [[[h|] s1]|e'].
+  - destruct (negb _); [discriminate|]. destruct (parse_header _ _); discriminate.
+  - discriminate.
+  - inversion H. reflexivity.
+Qed.
+
+(* a boolean checker for [spec_header], for the examples *)
+Definition spec_header_b (line : bytes) (dots : nat) (name : bytes) (ps : list (bytes * bytes)) : bool :=
+  Nat.leb dots 3 && mem beq name spec_names && all_b (fun p => key_ok (fst p) && val_ok (snd p)) ps
+  && beq line (render_header dots name ps).
+
+Lemma spec_header_b_sound : forall line dots name ps,
+  spec_header_b line dots name ps = true -> spec_header line dots name ps.
+Proof.
+  intros line dots name ps H. unfold spec_header_b in H.
+  repeat (apply andb_true_iff in H; destruct H as [H ?]).
+  split; [apply Nat.leb_le; assumption|]. split; [apply in_ids_In; assumption|].
+  split; [|apply beq_spec; assumption].
+  apply all_b_Forall in H1. revert H1. apply Forall_impl. intros p Hp.
+  apply andb_true_iff in Hp. destruct Hp. split; [apply spec_key_iff|apply spec_val_iff]; assumption.
+Qed.
+
+(* ================================================================================================ *)
+(** * C12 at header level *)
+
+(* the value of the last pair with key k *)
+Fixpoint last_val (k : bytes) (ps : list (bytes * bytes)) : option bytes :=
+  match ps with
+  | [] => None
+  | p :: t => match last_val k t with
+              | Some w => Some w
+              | None => if beq k (fst p) then Some (snd p) else None
+              end
+  end.
+
+Lemma get_fold_opts : forall conv k ps acc,
+  assoc_get beq k (fold_left (opts_step conv) ps acc) =
+  match last_val k ps with Some v => Some (conv v) | None => assoc_get beq k acc end.
+Proof.
+  intros conv k. induction ps as [|p t IH]; intros acc; [reflexivity|].
+  cbn [fold_left last_val]. rewrite IH. destruct (last_val k t); [reflexivity|].
+  unfold opts_step. rewrite (assoc_get_set beq beq_spec). destruct (beq k (fst p)); reflexivity.
+Qed.
+
+Lemma get_opts_of : forall conv k ps,
+  assoc_get beq k (opts_of conv ps) = option_map conv (last_val k ps).
+Proof. intros. unfold opts_of. rewrite get_fold_opts. destruct (last_val k ps); reflexivity. Qed.
+
+Lemma last_val_none : forall k ps, ~ In k (map fst ps) -> last_val k ps = None.
+Proof.
+  intros k. induction ps as [|p t IH]; intros H; [reflexivity|]. cbn [last_val map In] in *.
+  rewrite IH by tauto. destruct (beq k (fst p)) eqn:E; [|reflexivity].
+  apply beq_spec in E. exfalso. apply H. left. congruence.
+Qed.
+
+Lemma last_val_some_in : forall k ps v, last_val k ps = Some v -> In k (map fst ps).
+Proof.
+  intros k ps v H. destruct (in_dec (list_eq_dec Byte.byte_eq_dec) k (map fst ps)) as [Hi|Hn]; [assumption|].
+  rewrite last_val_none in H by assumption. discriminate.
+Qed.
+
+Lemma last_val_nodup : forall k v ps, NoDup (map fst ps) -> In (k, v) ps -> last_val k ps = Some v.
+Proof.
+  intros k v. induction ps as [|p t IH]; intros Hnd Hin; [contradiction|].
+  cbn [map] in Hnd. inversion Hnd as [|? ? Hnotin Hnd']; subst. cbn [last_val].
+  destruct Hin as [->|Hin].
+  - cbn [fst snd] in *. rewrite last_val_none by assumption.
+    rewrite (proj2 (beq_spec k k) eq_refl). reflexivity.
+  - rewrite IH by assumption. reflexivity.
+Qed.
+
+Lemma interleave_sym {A} : forall (a b c : list A), interleave a b c -> interleave b a c.
+Proof. intros a b c H. induction H; constructor; assumption. Qed.
+
+Lemma interleave_Forall {A} (P : A -> Prop) : forall a b c, interleave a b c ->
+  Forall P a -> Forall P b -> Forall P c.
+Proof.
+  intros a b c H. induction H; intros Ha Hb.
+  - constructor.
+  - inversion Ha; subst. constructor; auto.
+  - inversion Hb; subst. constructor; auto.
+Qed.
+
+Lemma interleave_in {A} : forall (a b c : list A), interleave a b c ->
+  forall x, In x c <-> In x a \/ In x b.
+Proof.
+  intros a b c H. induction H; intros y; cbn [In].
+  - tauto.
+  - rewrite IHinterleave. tauto.
+  - rewrite IHinterleave. tauto.
+Qed.
+
+Lemma last_val_interleave : forall k ps extra ps', interleave ps extra ps' ->
+  ~ In k (map fst extra) -> last_val k ps' = last_val k ps.
+Proof.
+  intros k ps extra ps' H. induction H; intros Hn.
+  - reflexivity.
+  - cbn [last_val]. rewrite IHinterleave by assumption. reflexivity.
+  - cbn [map In] in Hn. cbn [last_val]. rewrite IHinterleave by tauto.
+    destruct (last_val k a); [reflexivity|].
+    destruct (beq k (fst x)) eqn:E; [|reflexivity]. apply beq_spec in E. exfalso. apply Hn. left. congruence.
+Qed.
+
+(* Adding syntactically valid options with fresh, pairwise distinct keys at any positions of the option
+   list of an accepted header: the header is still accepted with the same level/name/id; every other key
+   reads as before (in particular no further key appears), and each added key reads as its value
+   (integers converted). *)
+Theorem C12_header : forall valid line line' dots name ps extra ps',
+  spec_header line dots name ps -> In (repeat_b "."%byte dots ++ name) valid ->
+  interleave ps extra ps' ->
+  Forall spec_pair extra -> NoDup (map fst extra) ->
+  (forall k, In k (map fst extra) -> ~ In k (map fst ps)) ->
+  line' = render_header dots name ps' ->
+  exists opts opts',
+    parse_header valid line = HOk dots name (repeat_b "."%byte dots ++ name) opts /\
+    parse_header valid line' = HOk dots name (repeat_b "."%byte dots ++ name) opts' /\
+    (forall k, ~ In k (map fst extra) -> assoc_get beq k opts' = assoc_get beq k opts) /\
+    (forall k v, In (k, v) extra ->
+       assoc_get beq k opts' = Some (convert_value v) /\ assoc_get beq k opts = None).
+Proof.
+  intros valid line line' dots name ps extra ps' Hs Hin Hil HFe Hnd Hfresh ->.
+  assert (Hs' : spec_header (render_header dots name ps') dots name ps').
+  { destruct Hs as (Hd & Hn & HF & _). repeat split; try assumption.
+    eapply interleave_Forall; eassumption. }
+  exists (opts_of convert_value ps), (opts_of convert_value ps').
+  split; [apply C11_complete; assumption|]. split; [apply C11_complete; assumption|]. split.
+  - intros k Hk. rewrite !get_opts_of. rewrite (last_val_interleave k ps extra ps') by assumption. reflexivity.
+  - intros k v Hkv. assert (Hk : In k (map fst extra)).
+    { apply in_map_iff. exists (k, v). split; [reflexivity|assumption]. }
+    rewrite !get_opts_of. split.
+    + rewrite (last_val_interleave k extra ps ps') by (first [apply interleave_sym; assumption | apply Hfresh; assumption]).
+      rewrite (last_val_nodup k v extra) by assumption. reflexivity.
+    + rewrite last_val_none by (apply Hfresh; assumption). reflexivity.
+Qed.
+
+(* the keys of the resulting dict are exactly the old keys and the added keys *)
+Corollary C12_header_keys : forall conv ps extra ps' k, interleave ps extra ps' ->
+  (assoc_get beq k (opts_of conv ps') <> None <-> In k (map fst ps) \/ In k (map fst extra)).
+Proof.
+  intros conv ps extra ps' k Hil. rewrite get_opts_of.
+  assert (Hin : In k (map fst ps') <-> In k (map fst ps) \/ In k (map fst extra)).
+  { rewrite !in_map_iff. split.
+    - intros (p & <- & Hp). apply (interleave_in _ _ _ Hil) in Hp. destruct Hp; [left|right]; exists p; auto.
+    - intros [(p & <- & Hp)|(p & <- & Hp)]; exists p; (split; [reflexivity|]);
+        apply (interleave_in _ _ _ Hil); auto. }
+  rewrite <- Hin. split.
+  - destruct (last_val k ps') eqn:E; [|cbn; congruence]. intros _. eapply last_val_some_in; eassumption.
+  - intros H. destruct (last_val k ps') eqn:E; [cbn; discriminate|].
+    exfalso. revert H E. clear. induction ps' as [|p t IH]; cbn [map In last_val]; [tauto|].
+    intros [H|H]; destruct (last_val k t) eqn:Et; try discriminate.
+    + subst k. rewrite (proj2 (beq_spec _ _) eq_refl). discriminate.
+    + intros _. apply IH; [assumption|reflexivity].
+Qed.
+
+(* ================================================================================================ *)
+(** * Complements: pure-form rejection, unambiguity of the grammar *)
+
+Theorem C11_reject_form : forall valid line,
+  ~ (exists dots name ps, spec_header line dots name ps) ->
+  exists col, parse_header valid line = HErr col.
+Proof.
+  intros valid line Hno. apply C11_reject. intros (d & n & ps & Hs & _). apply Hno. eauto.
+Qed.
+
+Lemma render_pair_inj : forall ps ps', Forall spec_pair ps -> Forall spec_pair ps' ->
+  map render_pair ps = map render_pair ps' -> ps = ps'.
+Proof.
+  induction ps as [|p ps IH]; intros ps' HF HF' H; destruct ps' as [|p' ps']; try discriminate; [reflexivity|].
+  inversion HF; subst. inversion HF'; subst. cbn [map] in H. inversion H as [[Hp Hps]].
+  f_equal; [|apply IH; assumption].
+  assert (E : Some (fst p, snd p) = Some (fst p', snd p')).
+  { rewrite <- !spec_pair_split by assumption. rewrite Hp. reflexivity. }
+  inversion E. destruct p, p'; cbn [fst snd] in *; congruence.
+Qed.
+
+(* a line has at most one reading in the grammar *)
+Theorem spec_header_unambiguous : forall line d1 n1 ps1 d2 n2 ps2,
+  spec_header line d1 n1 ps1 -> spec_header line d2 n2 ps2 -> d1 = d2 /\ n1 = n2 /\ ps1 = ps2.
+Proof.
+  intros line d1 n1 ps1 d2 n2 ps2 (Hd1 & Hn1 & HF1 & E1) (Hd2 & Hn2 & HF2 & E2).
+  pose proof (match_header_re_complete d1 n1 ps1 Hd1 Hn1 HF1) as M1.
+  pose proof (match_header_re_complete d2 n2 ps2 Hd2 Hn2 HF2) as M2.
+  rewrite <- E1 in M1. rewrite <- E2 in M2. rewrite M1 in M2. injection M2. intros Ho Hn Hd.
+  split; [assumption|]. split; [assumption|].
+  destruct ps1 as [|p1 t1]; destruct ps2 as [|p2 t2]; try discriminate; [reflexivity|].
+  assert (Hj : join comma_space (map render_pair (p1 :: t1)) = join comma_space (map render_pair (p2 :: t2)))
+    by congruence.
+  apply render_pair_inj; try assumption.
+  rewrite <- (bsplit_join_pairs (p1 :: t1)) by (discriminate || assumption).
+  rewrite <- (bsplit_join_pairs (p2 :: t2)) by (discriminate || assumption).
+  rewrite Hj. reflexivity.
+Qed.
